@@ -12,7 +12,7 @@ EV == Name("e")
 KC == Attr(Name("K"), "C")
 KD == Attr(Attr(Name("K"), "Inner"), "D")
 AM == Attr(Name("aux"), "M")
-Shapes == {"S1", "S2", "S3", "S4", "S5", "S6", "S7", "S9", "S10", "S11", "S12", "S13", "S14", "S15", "S16", "S17"}
+Shapes == {"S1", "S2", "S3", "S4", "S5", "S6", "S7", "S9", "S10", "S11", "S12", "S13", "S14", "S15", "S16", "S17", "S18", "S19"}
 ShapeTerm(sh) ==
     CASE sh = "S1"  -> Lam1("e", Meth(EV, "f", <<Name("v")>>))
       [] sh = "S2"  -> Lam1("e", Meth(EV, "f", <<Name("G")>>))
@@ -36,6 +36,9 @@ ShapeTerm(sh) ==
                                             <<Lam1("t", BinOp("+", BinOp("+", Attr(Name("t"), "pt"), Name("v")), KC))>>))>>))
       \* S17 is a one-line def (the SAME function object at every Build), S1 is a fresh lambda each time
       [] sh = "S17" -> Lam1("e", BinOp("+", Meth(EV, "f", <<Name("v")>>), Name("G")))
+      \* a parameter-less called lambda before a bare use of the own parameter (named like a global)
+      [] sh = "S18" -> Lam1("G", Tup(<<CallP(Lam(<<>>, IntC(3)), <<>>), Name("G"), Name("v")>>))
+      [] sh = "S19" -> Lam1("G", Tup(<<CallP(Lam(<<>>, Attr(Name("G"), "pt")), <<>>), BinOp("+", Name("G"), Name("v"))>>))
       [] sh = "S14" -> Lam1("G", Tup(<<Comp("list", "G", Attr(Name("G"), "pt"), Attr(Name("G"), "jets"), <<>>),
                                       Name("G")>>))
       [] OTHER      -> Lam1("e", Comp("list", "j", BinOp("+", Attr(Name("j"), "pt"), Name("G")), Attr(EV, "jets"),
@@ -54,7 +57,12 @@ Freeze(t, snap) ==
         s2 == IF "G" \in ps THEN s1 ELSE Subst(s1, "G", snap.G)
         s3 == IF "w" \in ps THEN s2 ELSE Subst(s2, "w", snap.wc)
     IN [t EXCEPT !.a = <<s3>>]
-ExpectedLam(sh, snap) == LowerComp(Freeze(ShapeTerm(sh), snap))
+(* called lambdas in the body are resolved when the query is built *)
+ShapeOut(sh) ==
+    CASE sh = "S18" -> Lam1("G", Tup(<<IntC(3), Name("G"), Name("v")>>))
+      [] sh = "S19" -> Lam1("G", Tup(<<Attr(Name("G"), "pt"), BinOp("+", Name("G"), Name("v"))>>))
+      [] OTHER -> ShapeTerm(sh)
+ExpectedLam(sh, snap) == LowerComp(Freeze(ShapeOut(sh), snap))
 (* the values actually captured by the shape *)
 Captured(sh, snap) ==
     LET t == ShapeTerm(sh)  fv == FV(t)  subs == SubTerms(t) IN
